@@ -127,7 +127,8 @@ def recount (b : Bkt) : Counters :=
       lock := (idsWith b.keys aType tLock).length,
       link := (idsWith b.keys aType tLink).length,
       gc := garbCount b.keys,
-      payload := ((phyIds.filter fun id => !removed b id).map fun id => parseU64 ((attrOf b.keys id aPayloadSize).getD [])).sum }
+      -- (repaired 6730234: an object carrying a removal mark of either kind is not counted)
+      payload := ((phyIds.filter fun id => !removed b id && !b.keys.contains (.garb id)).map fun id => parseU64 ((attrOf b.keys id aPayloadSize).getD [])).sum }
 
 /-- `syncCounter(tx, true)`: every metadata bucket, whatever the container source says -/
 def syncAll (bkts : List (Nat × Bkt)) : List (Nat × Bkt) := bkts.map fun cb => (cb.1, { cb.2 with ctr := some (recount cb.2) })
